@@ -30,6 +30,15 @@ CONSTANTS
 RING_INV = "INVARIANTS WeightInv SlotInv FillInv RingInv CycleInv BoundsInv\nPROPERTY Terminates"
 CFG_INV = "INVARIANTS WeightInv WeighInv BoundsInv\nVIEW View\nCHECK_DEADLOCK FALSE"
 GEN = "INVARIANTS WeightInv WeighInv BoundsInv\nVIEW View\nCHECK_DEADLOCK FALSE"
+GEN_ALL = "INVARIANTS WeightInv WeighInv BoundsInv\nCHECK_DEADLOCK FALSE"     # every script is a case
+RR_CFG = """SPECIFICATION GenSpec
+CONSTANTS
+  Rings <- MCRings
+  MaxSteps = %d
+  PatLen = %d
+INVARIANTS PerRouteCycle Periodic OnlyMembers
+CHECK_DEADLOCK FALSE
+"""
 WORKERS = 8
 FILES = ["route/common_test.go", "route/c04_test.go"]
 
@@ -38,8 +47,8 @@ def vec_cfg(spec, n, slots, rest, wu="MCWUAll"):
     return CFG % dict(spec=spec, wu=wu, wc="MCWCNone", svc="MCSvc1", tags="MCTags1", n=n, cmds=0, slots=slots, rest=rest)
 
 
-def cmd_cfg(spec, n, cmds, wu, wc, rest):
-    return CFG % dict(spec=spec, wu=wu, wc=wc, svc="MCSvc2", tags="MCTags3", n=n, cmds=cmds, slots=12, rest=rest)
+def cmd_cfg(spec, n, cmds, wu, wc, rest, tags="MCTags3"):
+    return CFG % dict(spec=spec, wu=wu, wc=wc, svc="MCSvc2", tags=tags, n=n, cmds=cmds, slots=12, rest=rest)
 
 
 def run_harness(ctx, cases, what, pick_every=1, timeout=900):
@@ -59,6 +68,8 @@ def run(ctx):
         "fixed weights {dynamic, 10 ppm, 100 ppm, 25 %, 33.33 %, 50 %, 99.99 %, 100 %, 150 %}, every vector of 1..4 targets; `route weight` scripts over 2 services x tag sets {none, t1, t1+t2}",
         "effective weights compared with exact rationals to 1e-9 (fabio computes in float64)",
         "a full round-robin cycle = len(ring) consecutive picks from a seed-chosen cursor position; the share of a target is accepted when it is exact (count/len = weight) or within the slot bounds floor(10^4 w)-1 .. ceil(10^4 w), at least one slot iff w > 0",
+        "`route weight` with w <= 0 removes the fixed weight (documented: 'w <= 0 means no fixed weighting'); the expected split is that of the configuration after the LAST command of the script (scripts with weight > 0 then weight 0 / negative are cases of their own)",
+        "several routes in one table (same path on different hosts, ':port' routes): lookups are interleaved following every schedule of up to 4 (thorough 5) steps over 3 routes, repeated until every route has seen two ring lengths; each route's own consecutive lookups must form exact cycles and be periodic with its ring length",
         "random picker: the statistical share is not checked; with the random source replaced by a counter every ring index is drawn once and the picks must be exactly the ring's members",
         "the ring-filling loop is model-checked on rings of 12 and 30 slots (MaxSlots is a constant of the specification, 10 000 in fabio); the real 10 000-slot ring is bound through its observable properties (no empty slot, occupancy, cursor order)",
     ]
@@ -94,6 +105,10 @@ def run(ctx):
     cases = os.path.join(ctx.tmp, "c04.cases")
     gens = [("vectors <=4 targets", vec_cfg("GenSpec", 4, 12, GEN)),
             ("route weight, 1 command", cmd_cfg("GenSpec", 3, 1, "MCWUSmall", ctx.pick("MCWCSmall", "MCWCFull"), GEN))]
+    # weight > 0 then weight 0 / negative, resets as the last command on the route, ...: every
+    # script of <=2 commands is a case (no view), the split must be that of the LAST configuration
+    gens.append(("route weight resets, every script of <=2 commands",
+                 cmd_cfg("GenSpec", ctx.pick(2, 3), 2, "MCWUSmall", "MCWCReset", GEN_ALL, tags="MCTags2")))
     if ctx.thorough:
         gens.append(("route weight, 2 commands", cmd_cfg("GenSpec", 3, 2, "MCWUSmall", "MCWCSmall", GEN)))
         gens.append(("route weight, 4 targets", cmd_cfg("GenSpec", 4, 1, "MCWUSmall", "MCWCSmall", GEN)))
@@ -105,21 +120,44 @@ def run(ctx):
         ctx.cover("gen " + name, states=g.distinct, transitions=g.generated)
 
     # 4. replay into the real code
-    # quick tier: weights and ring shares for every vector, the two full pick cycles for every
-    # vector of <=3 targets added with fixed weights and a seed-selected eighth (thorough: third) of the others
-    r = run_harness(ctx, cases, "C04 replay", pick_every=ctx.pick(8, 3))
+    # quick tier: weights and ring shares for every vector, the pick cycles for every
+    # vector of <=3 targets added with fixed weights and a seed-selected slice of the others
+    r = run_harness(ctx, cases, "C04 replay", pick_every=ctx.pick(12, 5))
     if r is None:
         return
     s = r.summary
-    ctx.log("replayed %d vectors (%d through route weight): %d weights, %d ring shares, %d rr picks, %d rnd picks, %d failed, %.0fs"
-            % (s["cases"], s["via_weight_cmd"], s["weights"], s["cycles"], s["picks"], s["rnd_picks"], s["fails"], r.wall))
-    if s["cases"] == 0 or s["picks"] == 0 or s["rnd_picks"] == 0 or s["via_weight_cmd"] == 0:
+    ctx.log("replayed %d vectors (%d through route weight, %d with a reset as last command): %d weights, %d ring shares, %d rr picks, %d rnd picks, %d failed, %.0fs"
+            % (s["cases"], s["via_weight_cmd"], s["reset_last"], s["weights"], s["cycles"], s["picks"], s["rnd_picks"], s["fails"], r.wall))
+    if s["cases"] == 0 or s["picks"] == 0 or s["rnd_picks"] == 0 or s["via_weight_cmd"] == 0 or s["reset_last"] == 0:
         ctx.inconclusive("C04: vacuous replay (%s)" % json.dumps(s)[:300])
         return
     ctx.cover(traces_validated_against_impl=s["cases"], evaluations=s["weights"] + s["cycles"] + s["picks"] + s["rnd_picks"],
               distinct_nontrivial=s["distinct_nontrivial"], samples=s.get("samples") or [],
-              rule="one case per weight vector TLC generated (targets as added + route weight script); evaluations = target weights compared + ring shares compared + single real picks checked; non-trivial = distinct vector with >=2 targets and at least one fixed weight")
+              rule="one case per weight vector / script TLC generated (targets as added + route weight script); evaluations = target weights compared + ring shares compared + single real picks checked; non-trivial = distinct vector with >=2 targets and at least one fixed weight")
     ctx.take_failures(r, "c04")
+
+    # 4b. several routes in one table, lookups interleaved as TLC's schedules prescribe
+    sched = os.path.join(ctx.tmp, "c04.sched")
+    rrg = ctx.tlc("WeightsRR_MC", cfg_text=RR_CFG % (ctx.pick(8, 9), ctx.pick(4, 5)), workers=4, json_sink=sched, timeout=600)
+    ctx.log("MC+Gen round robin over 3 routes: %d generated, %d distinct, %.0fs" % (rrg.generated, rrg.distinct, rrg.wall))
+    if not ctx.need_tlc_ok(rrg, "WeightsRR MC"):
+        return
+    ctx.cover("mc rr", states=rrg.distinct, transitions=rrg.generated)
+    m = ctx.gotest("route", FILES, "^TestVerifC04Multi$",
+                   env={"VERIF_IN": cases, "VERIF_SCHED": sched, "VERIF_WORKERS": WORKERS}, timeout=900)
+    if not ctx.need_go_ok(m, "C04 interleaved replay"):
+        return
+    if m.of_kind("error"):
+        ctx.inconclusive("C04 interleaved replay: %s" % m.of_kind("error")[0].get("msg"))
+        return
+    ms = m.summary
+    ctx.log("interleaved: %d tables of up to 3 routes (same path on different hosts / ':port' routes), %d lookups, %d failed, %.0fs"
+            % (ms["tables"], ms["picks"], ms["fails"], m.wall))
+    if ms["tables"] == 0 or ms["picks"] == 0:
+        ctx.inconclusive("C04 interleaved replay is vacuous")
+        return
+    ctx.cover("multi", traces_validated_against_impl=ms["tables"], evaluations=ms["picks"], samples=ms.get("samples") or [])
+    ctx.take_failures(m, "c04-multi")
 
     # 5. binding self-test: corrupted expectations must be rejected by the harness
     victim = None
@@ -153,7 +191,15 @@ def run(ctx):
 
 def replay(ctx, rp):
     one = os.path.join(ctx.tmp, "c04.replay")
-    vf.write_ndjson(one, [rp["replay"]["case"]])
+    case = rp["replay"]["case"]
+    vf.write_ndjson(one, [case])
+    if isinstance(case, dict) and "multi" in case:
+        r = ctx.gotest("route", FILES, "^TestVerifC04Multi$", env={"VERIF_IN": one, "VERIF_WORKERS": 1}, timeout=600)
+        if not ctx.need_go_ok(r, "C04 interleaved replay"):
+            return
+        ctx.cover(evaluations=1)
+        ctx.take_failures(r, "c04-multi")
+        return
     r = run_harness(ctx, one, "C04 replay")
     if r is None:
         return
